@@ -3,7 +3,7 @@
 DUT: luna.gateware.usb.usb3.link.transmitter.RawPacketTransmitter (real code).  The words it gets accepted by the PHY are
   replayed (harness-side, contiguous, receivers reset before each packet) into the real RawHeaderPacketReceiver and
   DataPacketReceiver, which sit in the same harness.
-Workload: sessions of 70 (quick tier) or 100 (thorough tier) packets (elaborating the three CRC-32/CRC-16 users costs far more than simulating them): data headers (60 %) with payloads of every length mod 4 (0..70 mostly, some up to 300,
+Workload: sessions of 110 packets (elaborating the three CRC-32/CRC-16 users costs far more than simulating them): data headers (60 %) with payloads of every length mod 4 (0..70 mostly, some up to 300,
   1024 in the thorough tier; zero-length = no data offered), delayed data headers (DPP must be aborted), transaction /
   link-management / isochronous-timestamp headers; all header words, sequence number, reserved bits, hub depth, delayed,
   deferred random; the header's own crc16/crc5 inputs are garbage (must be ignored).  Requests the two ways the link
@@ -53,7 +53,7 @@ from rv.sim import Bench
 from rv.ref import c35_usb3link as L
 
 PROPERTY = "C36"
-CASES = {"quick": 32, "thorough": 320}
+CASES = {"quick": 16, "thorough": 160}
 # elaboration of the CRC-32 users dominates the cost; generous watchdog for a loaded machine
 TIMEOUT = {"quick": 3600, "thorough": 8 * 3600}
 RULE = ("case = session of 70 (quick) or 100 (thorough) packets (60% data headers with payload 0..300 bytes, every length mod 4; delayed data headers; "
@@ -95,9 +95,9 @@ def gen_packet(rng, tier):
             n = rng.randint(1, 16)
         elif x < 0.90:
             n = rng.randint(17, 70)
-        elif x > (0.985 if tier == "thorough" else 0.99):    # both tiers: maximum-size boundary
+        elif x > 0.98:    # both tiers: maximum-size boundary
             n = rng.choice([1024, 1023, 1022, 1021])
-        elif x > 0.97:
+        elif x > 0.94:
             n = rng.randint(301, 1020)
         else:
             n = rng.randint(71, 300)
@@ -230,7 +230,7 @@ def run_case(rng, tier, res):
 
     h = Harness()
     tx, hrx, drx = h.tx, h.hrx, h.drx
-    n_packets = 100 if tier == "thorough" else 70      # quick tier: 70 packets keep the run under 60 s on 16 cores
+    n_packets = 110      # 16 quick cases = one round on 16 workers: elaborating 16 CRC-32 users side by side is what costs wall time
     plan = [gen_packet(rng, tier) for _ in range(n_packets)]
     profile = rng.choice([("always",), ("always",), ("random", 0.5), ("random", 0.8), ("random", 0.3), ("pulse", rng.randint(2, 4)),
                           ("bursty", 4, 6), ("bursty", 6, 3)])
